@@ -6,9 +6,9 @@ namespace Vibrato
 the sentence; connection and word costs are bounded above so that no accumulated
 cost exceeds `i32::MAX` (the property's "costs stay within 32-bit range"). -/
 structure EnvOK (E : LatEnv) (C W : Int) : Prop where
-  cands_range : ∀ sw c, c ∈ E.cands sw → sw < c.endWord ∧ c.endWord ≤ E.len
+  cands_range : ∀ sw, sw < E.len → ∀ c, c ∈ E.cands sw → sw < c.endWord ∧ c.endWord ≤ E.len
   conn_le : ∀ r l, E.conn r l ≤ C
-  word_le : ∀ sw c, c ∈ E.cands sw → c.wordCost ≤ W
+  word_le : ∀ sw, sw < E.len → ∀ c, c ∈ E.cands sw → c.wordCost ≤ W
   C_nonneg : 0 ≤ C
   W_nonneg : 0 ≤ W
   bound : ((E.len : Int) + 1) * (C + W) ≤ MAX_COST
@@ -75,11 +75,11 @@ theorem bound_mono {E C W} (hE : EnvOK E C W) (p : Nat) (hp : p ≤ E.len) :
 `p` (which has a node) and ends beyond it. -/
 theorem insert_inv {E C W L} (hE : EnvOK E C W) (p sw : Nat) (c : Cand)
     (h : LInv E C W L (p + 1)) (hne : endsAt L p ≠ []) (hpsw : sw = p + E.skip p)
-    (hc : c ∈ E.cands sw) :
+    (hswl : sw < E.len) (hc : c ∈ E.cands sw) :
     LInv E C W (insertNode E L p sw c) (p + 1) := by
-  have hsw : sw < c.endWord := (hE.cands_range sw c hc).1
-  have hend : c.endWord ≤ E.len := (hE.cands_range sw c hc).2
-  have hw : c.wordCost ≤ W := hE.word_le sw c hc
+  have hsw : sw < c.endWord := (hE.cands_range sw hswl c hc).1
+  have hend : c.endWord ≤ E.len := (hE.cands_range sw hswl c hc).2
+  have hw : c.wordCost ≤ W := hE.word_le sw hswl c hc
   have hplen : p < E.len := by omega
   have hpe : c.endWord ≠ p := by omega
   have hmax : ∀ m ∈ endsAt L p, stepCost E.conn c.leftId m ≤ MAX_COST := by
@@ -137,7 +137,8 @@ theorem insert_endsAt_end {E : LatEnv} {L : Ends} (p sw : Nat) (c : Cand)
 
 /-- Folding `insert_node` over a candidate list keeps the invariant, leaves every
 boundary `≤ sw` untouched and never empties a boundary. -/
-theorem foldl_insert_inv {E C W} (hE : EnvOK E C W) (p sw : Nat) (hpsw : sw = p + E.skip p) :
+theorem foldl_insert_inv {E C W} (hE : EnvOK E C W) (p sw : Nat) (hpsw : sw = p + E.skip p)
+    (hswl : sw < E.len) :
     ∀ (cs : List Cand) (L : Ends),
       (∀ c ∈ cs, c ∈ E.cands sw) →
       LInv E C W L (p + 1) → endsAt L p ≠ [] →
@@ -151,9 +152,9 @@ theorem foldl_insert_inv {E C W} (hE : EnvOK E C W) (p sw : Nat) (hpsw : sw = p 
   | cons c cs ih =>
     intro L hcs h hne
     have hc0 := hcs c (by simp)
-    have hc1 : sw < c.endWord := (hE.cands_range sw c hc0).1
-    have hc2 : c.endWord ≤ E.len := (hE.cands_range sw c hc0).2
-    have h1 := insert_inv hE p sw c h hne hpsw hc0
+    have hc1 : sw < c.endWord := (hE.cands_range sw hswl c hc0).1
+    have hc2 : c.endWord ≤ E.len := (hE.cands_range sw hswl c hc0).2
+    have h1 := insert_inv hE p sw c h hne hpsw hswl hc0
     have hp' : endsAt (insertNode E L p sw c) p ≠ [] := by
       rw [insert_endsAt_le p sw c p (by omega)]; exact hne
     obtain ⟨i1, i2, i3, i4⟩ := ih (insertNode E L p sw c) (fun c' hc' => hcs c' (by simp [hc'])) h1 hp'
@@ -173,13 +174,14 @@ theorem foldl_insert_inv {E C W} (hE : EnvOK E C W) (p sw : Nat) (hpsw : sw = p 
       · exact i4 c' hc'
 
 theorem addEdges_inv {E C W L} (hE : EnvOK E C W) (p sw : Nat) (hpsw : sw = p + E.skip p)
+    (hswl : sw < E.len)
     (h : LInv E C W L (p + 1)) (hne : endsAt L p ≠ []) :
     LInv E C W (addEdges E L p sw) (p + 1) ∧
       (∀ j, j ≤ sw → endsAt (addEdges E L p sw) j = endsAt L j) ∧
       (∀ j, endsAt L j ≠ [] → endsAt (addEdges E L p sw) j ≠ []) ∧
       (∀ c ∈ E.cands sw, endsAt (addEdges E L p sw) c.endWord ≠ []) := by
   unfold addEdges
-  exact foldl_insert_inv hE p sw hpsw (E.cands sw) L (fun c hc => hc) h hne
+  exact foldl_insert_inv hE p sw hpsw hswl (E.cands sw) L (fun c hc => hc) h hne
 
 /-- The main loop keeps the invariant; the boundary handed to `insert_eos` is at
 most `len`; and when every start position offers at least one candidate
@@ -193,7 +195,7 @@ theorem buildLoop_inv {E C W} (hE : EnvOK E C W) (L : Ends) (p : Nat)
   | case2 L p hlt hemp sw hbreak => exact ⟨h.mono (by omega), by omega, Or.inr hbreak⟩
   | case3 L p hlt hemp sw hcont ih =>
     have hne : endsAt L p ≠ [] := by simpa using hemp
-    have := addEdges_inv hE p sw rfl (h.mono (Nat.le_succ p)) hne
+    have := addEdges_inv hE p sw rfl (by omega) (h.mono (Nat.le_succ p)) hne
     exact ih (this.1.mono (by omega)) (by omega)
   | case4 L p hge => exact ⟨h.mono (by omega), by omega, Or.inl (by omega)⟩
 
@@ -215,11 +217,11 @@ theorem buildLoop_reach {E C W} (hE : EnvOK E C W) (hcov : Covered E) (L : Ends)
   | case2 L p hlt hemp sw hbreak => simpa using hemp
   | case3 L p hlt hemp sw hcont ih =>
     have hne : endsAt L p ≠ [] := by simpa using hemp
-    have hadd := addEdges_inv hE p sw rfl (h.mono (Nat.le_succ p)) hne
+    have hadd := addEdges_inv hE p sw rfl (by omega) (h.mono (Nat.le_succ p)) hne
     apply ih (hadd.1.mono (by omega)) (by omega)
     have hsw : sw < E.len := by omega
     obtain ⟨c, hc⟩ := List.exists_mem_of_ne_nil _ (hcov sw hsw)
-    exact ⟨c.endWord, (hE.cands_range sw c hc).1, hadd.2.2.2 c hc⟩
+    exact ⟨c.endWord, (hE.cands_range sw hsw c hc).1, hadd.2.2.2 c hc⟩
   | case4 L p hge =>
     obtain ⟨e, he, hne⟩ := hreach
     rcases Nat.lt_or_ge p e with h1 | h1
